@@ -459,6 +459,12 @@ impl Check for C01Check {
     fn level(&self) -> &'static str {
         "fault_enumeration"
     }
+    fn address_space_limit_mib(&self) -> Option<u64> {
+        // decoders of <= 64 KiB datagrams: an allocation that does not fit in 4 GiB of address
+        // space derives from a wire-controlled field; it must fail here as it would on a
+        // machine without over-commit, not pass silently
+        Some(4096)
+    }
     fn dual_mode(&self) -> bool {
         true
     }
